@@ -25,7 +25,7 @@ theorem inv_iff (l : Chain) : l.Inv ↔ l = ofList l.nodes := by
 
 theorem Inv.eq {l : Chain} (h : l.Inv) : l = ofList l.abs := (inv_iff l).1 h
 
-@[simp] theorem ofList_nil : ofList [] = {} := by simp [ofList]
+theorem ofList_nil : ofList [] = {} := by simp [ofList]
 theorem ofList_head_cons (x : Nat) (xs : List Nat) : (ofList (x :: xs)).head = some 0 := by simp [ofList]
 theorem ofList_tail_cons (x : Nat) (xs : List Nat) : (ofList (x :: xs)).tail = some xs.length := by simp [ofList]
 
@@ -149,6 +149,61 @@ theorem writeBack_spec (n : Nat) (vals : List Nat) (m : Mem) : ∀ (k i : Nat) (
       by_cases c2 : i = j
       · subst c2; rw [if_pos ⟨rfl, hi⟩, if_pos (by omega)]
       · rw [if_neg (by omega), if_neg (by omega)]
+end Chain
+
+/-- `k` node allocations in a row; the first refusal releases the `got` nodes obtained so far -/
+def Mem.allocChain : Nat → Nat → Mem → Bool × Mem
+  | 0, _, m => (true, m)
+  | k + 1, got, m =>
+    let a := m.alloc
+    if !a.1 then (false, Mem.freeN got a.2) else Mem.allocChain k (got + 1) a.2
+
+theorem Mem.allocChain_spec : ∀ (k got : Nat) (m : Mem), got ≤ m.live →
+    ((Mem.allocChain k got m).1 = true → (Mem.allocChain k got m).2.live = m.live + k) ∧
+    ((Mem.allocChain k got m).1 = false → (Mem.allocChain k got m).2.live = m.live - got) ∧
+    (Mem.allocChain k got m).2.fault = m.fault ∧ (Mem.allocChain k got m).2.libc = m.libc
+  | 0, got, m, _ => by simp [Mem.allocChain]
+  | k + 1, got, m, h => by
+    simp only [Mem.allocChain]
+    cases ha : m.alloc.1
+    · have e := Mem.alloc_fst_false m ha
+      have f := Mem.freeN_live got m.alloc.2 (by omega)
+      simp only [Bool.not_false, if_true]
+      refine ⟨by simp, fun _ => by rw [f.1, e.1], by rw [f.2.1, e.2.1], by rw [f.2.2, e.2.2]⟩
+    · have e := Mem.alloc_fst_true m ha
+      have ih := Mem.allocChain_spec k (got + 1) m.alloc.2 (by omega)
+      simp only [Bool.not_true, Bool.false_eq_true, if_false]
+      refine ⟨fun h1 => by rw [ih.1 h1, e.1]; omega, fun h1 => by rw [ih.2.1 h1, e.1]; omega,
+        by rw [ih.2.2.1, e.2.1], by rw [ih.2.2.2, e.2.2]⟩
+
+namespace Chain
+theorem linkAll_ofList (xs : List Nat) : ∀ (k j : Nat) (acc : List Nat) (m : Mem), j + k ≤ xs.length →
+    linkAll (ofList xs) k (ptrAt xs.length j) acc m =
+      if (m.allocChain k acc.length).1 then (true, acc ++ (xs.drop j).take k, (m.allocChain k acc.length).2)
+      else (false, [], (m.allocChain k acc.length).2)
+  | 0, j, acc, m, _ => by simp [linkAll, Mem.allocChain]
+  | k + 1, j, acc, m, h => by
+    have hj : j < xs.length := by omega
+    simp only [linkAll, Mem.allocChain, ofList_nodes]
+    by_cases ha : m.alloc.1 = true
+    case neg => simp [ha]
+    case pos =>
+      simp only [ha, Bool.not_true, Bool.false_eq_true, if_false]
+      rw [next_ptrAt _ _ hj, ptrAt_lt _ _ hj]
+      simp only [Ptr.valid, hj, decide_true, Mem.check_true, data_some, ofList_nodes]
+      have := linkAll_ofList xs k (j + 1) (acc ++ [xs.getD j 0]) m.alloc.2 (by omega)
+      rw [this]
+      simp only [List.length_append, List.length_cons, List.length_nil, List.append_assoc]
+      rw [drop_eq_getD_cons xs j hj]
+      simp
+
+theorem linkAllExternally_ofList (xs : List Nat) (m : Mem) :
+    (ofList xs).linkAllExternally m =
+      if (m.allocChain xs.length 0).1 then (true, xs, (m.allocChain xs.length 0).2)
+      else (false, [], (m.allocChain xs.length 0).2) := by
+  unfold linkAllExternally
+  rw [ofList_head_ptrAt, ofList_size, linkAll_ofList xs xs.length 0 [] m (by omega)]
+  simp
 end Chain
 
 end CC
